@@ -24,7 +24,7 @@ COMBOS = [("euclidean", "dense32"), ("cosine", "csr"), ("manhattan", "dense64"),
 
 def kernel_level(res, rng, n_cases):
     for c in range(n_cases):
-        cfg = dk.nnd_case(rng, small=(c % 2 == 0))
+        cfg = dk.nnd_case(rng, small=(c % 2 == 0)); cfg["sparse"] = (c % 3 == 2)     # every third case: sparse_nndescent.nn_descent
         outs = {}
         for low in (True, False):
             impl, line, (X, tab, ind, dst, _init) = dk.run_nnd_pair(cfg, low)
@@ -39,7 +39,7 @@ def kernel_level(res, rng, n_cases):
                 res.violation("graph:kernel:" + bad[0], bad[1], {"cfg": cfg, "low_memory": low})
         res.case(tuple(sorted(cfg.items())), nontrivial=(cfg["n_iters"] > 0 and cfg["n"] > cfg["k"]),
                  sample={"cfg": cfg, "row0": outs[True].split(" | ")[0].split(" ")[:cfg["k"]]})
-        res.count("kernel_cases"); res.count("tree" if cfg["tree"] else "no-tree"); res.count("init_" + cfg["init"])
+        res.count("kernel_cases"); res.count("kernel_sparse" if cfg.get("sparse") else "kernel_dense"); res.count("tree" if cfg["tree"] else "no-tree"); res.count("init_" + cfg["init"])
         res.count("threads_%d" % cfg["threads"])
 
 
